@@ -1,6 +1,6 @@
 from excel2pycl.src.context import Context
 from excel2pycl.src.excel import Excel
-from excel2pycl.src.tokens import LambdaToken, PatternToken
+from excel2pycl.src.tokens import LambdaToken
 from excel2pycl.src.translators.abstract_translator import AbstractTranslator
 
 
@@ -12,11 +12,6 @@ class LambdaTokenTranslator(AbstractTranslator):
         literal, expression = token.literal, ExpressionTokenTranslator.translate(
             token.expression, excel, context
         ) if token.expression else None
-
-        if getattr(getattr(token.expression, 'left_operand', None), 'value', None) \
-                and isinstance(token.expression.left_operand.value[0], PatternToken) and len(token.expression.value) == 1:
-            # the text of the pattern itself, the wildcards are interpreted when the criterion is applied
-            expression = repr(token.expression.left_operand.value[0].value[0][1:-1])
 
         # the meaning of a criterion depends on its value (">5", "<>x", "a*", a number, a date): see _accepts
         if literal is not None and expression is not None:
